@@ -17,7 +17,7 @@ LEAN = os.path.join(VERIF, "lean")
 HARNESS = os.path.join(VERIF, "harness")
 BUILD = os.path.join(VERIF, ".build")
 TARGET = os.path.join(BUILD, "target")
-AMODEL = os.path.join(LEAN, ".lake", "build", "bin", "amodel")
+AMODEL = os.path.join(LEAN, ".lake", "build", "bin", "amodel")  # all engines; checks use amodel-<engine>
 GUARD = "actix_net_verif"
 ALLOWED_AXIOMS = {"propext", "Classical.choice", "Quot.sound"}
 FORBIDDEN = re.compile(r"\b(sorry|admit|native_decide|bv_decide|implemented_by)\b|^\s*axiom\s|\bunsafe\s|maxHeartbeats\s+0\b")
@@ -246,7 +246,8 @@ def run_model(engine, ops, workdir, tag="model"):
     with open(ip, "w") as f:
         f.write("\n".join(ops) + ("\n" if ops else ""))
     with open(ip) as fin:
-        rc, out, dt = sh([AMODEL, engine], stdin=fin, timeout=3600)
+        # one executable per engine: a model that no longer builds only affects the properties decided with it
+        rc, out, dt = sh([AMODEL + "-" + engine, engine], stdin=fin, timeout=3600)
     lines = out.split("\n")
     if lines and lines[-1] == "":
         lines.pop()
@@ -388,7 +389,7 @@ def main():
             ob("translate:" + sp, "translate", bool(st and st.get("ok")), (st or {}).get("error", "span missing") if not (st and st.get("ok")) else st.get("hash", ""))
         if "__extract__" in spans:
             ob("translate:extract.py", "translate", False, spans["__extract__"].get("error", ""))
-        rc, out, broken, dt_lake = lake_build([props_mod, "amodel"])
+        rc, out, broken, dt_lake = lake_build([props_mod, "amodel-" + prop["engine"]])
         thms = []
         if rc == 0:
             arc, thms, aout = audit([props_mod], workdir=workdir)
